@@ -21,8 +21,8 @@ META = {
         "one node with >=3 children; distinct = tree shape (enumerator) or (algorithm, sizes, #refinements, optimum)."
     ),
     "floors": {
-        "quick": {"evaluations": 200, "mon.enum": 70, "mon.enum_trees_logged": 600, "mon.input_binarize": 30, "mon.e2e": 40},
-        "thorough": {"evaluations": 2500, "mon.enum": 500, "mon.enum_trees_logged": 30000, "mon.input_binarize": 300, "mon.e2e": 800},
+        "quick": {"evaluations": 200, "mon.enum": 70, "mon.enum_trees_logged": 600, "mon.input_binarize": 30, "mon.e2e": 40, "mon.enum_recoloured": 30, "mon.e2e_recoloured": 10},
+        "thorough": {"evaluations": 2500, "mon.enum": 500, "mon.enum_trees_logged": 30000, "mon.input_binarize": 300, "mon.e2e": 800, "mon.enum_recoloured": 200, "mon.e2e_recoloured": 300},
     },
     "exhaustive": {"quick": True, "thorough": True},
     "space": {"quick": "all tree shapes of any arity with <=6 leaves (named / coloured variants), 48 end-to-end inputs up to 4+4 leaves with <=2 polytomies", "thorough": "all tree shapes of any arity with <=7 leaves, 1k end-to-end inputs up to 5+4 leaves with <=2 polytomies"},
@@ -112,6 +112,31 @@ def named_variant(rng, shape, mode):
         return d
 
     return go(shape, 0)
+
+
+COLORS = ["FF0000", "00FF00", "0000FF", "FFAA00", "123456"]
+
+
+def recolour(rng, nested):
+    """Same topology, child order and names; colour annotations drawn again (history workload: a second call on a tree
+    that differs from an earlier one only in its colours must not see anything of the earlier call)."""
+    if isinstance(nested, str):
+        return nested
+    if isinstance(nested, dict):
+        d = {k: v for k, v in nested.items() if k not in ("color", "ch")}
+        ch = nested.get("ch", [])
+    else:
+        d, ch = {}, nested
+    d["ch"] = [recolour(rng, c) for c in ch]
+    old = nested.get("color") if isinstance(nested, dict) else None
+    r = rng.random()
+    if r < 0.6:
+        d["color"] = rng.choice([c for c in COLORS if c != old])
+    elif r < 0.8 and old:
+        d["color"] = old
+    if not d["ch"]:
+        d.pop("ch")
+    return d
 
 
 def check_enum(ctx, nested):
@@ -320,7 +345,14 @@ def run(ctx, spec):
                     if idx % spec["n"] != spec["i"]:
                         continue
                     sh = shape if idx % 3 else RT.mirror(shape)
-                    check_enum(ctx, named_variant(rng, sh, mode))
+                    nv = named_variant(rng, sh, mode)
+                    check_enum(ctx, nv)
+                    if mode in ("named", "both") and n >= 3:
+                        # history: same names and topology, other colours, then the first one again
+                        check_enum(ctx, recolour(rng, nv))
+                        ctx.count("mon.enum_recoloured")
+                        if idx % 2:
+                            check_enum(ctx, nv)
                     if ctx.too_many():
                         return
         # ReconciliationInput.binarize on random multifurcating inputs
@@ -333,6 +365,10 @@ def run(ctx, spec):
             algo = ["ext_spfs", "superdtl"][k % 2]
             case = random_poly_case(rng, algo, 4 if ctx.tier == "quick" else 5, 4)
             check_e2e(ctx, case)
+            if k % 2 == 0:
+                # history: the same input with other colour annotations, in the same process
+                check_e2e(ctx, dict(case, G=recolour(rng, case["G"]), S=recolour(rng, case["S"])))
+                ctx.count("mon.e2e_recoloured")
             if k % 3 == 0:
                 check_input_binarize(ctx, case)
             if ctx.too_many():
@@ -358,6 +394,8 @@ def random_poly_case(rng, algo, max_obj, max_sp):
         if named:
             # distinctive user-given names on every ancestor (also the roots): they must survive the refinement
             G, S = _give_names(G, "anc"), _give_names(S, "clade")
+        if rng.random() < 0.5:
+            G, S = recolour(rng, G), recolour(rng, S)
         return {"kind": "e2e", "algo": algo, "G": G, "S": S, "leafmap": lm, "costs": gen.random_cost(rng),
                 "syn": gen.random_syntenies(rng, list(lm), 3, ordered=ordered, consistent_p=1.0), "named": named}
 
